@@ -144,6 +144,27 @@ func c09Concurrent(c *vlib.Ctx) {
 		var obs []nonceObs
 		var wg sync.WaitGroup
 		start := make(chan struct{})
+		// every fourth round: a cache that already remembers thousands of live nonces
+		// (every insertion sweeps it) and background traffic with fresh nonces while
+		// the duplicates arrive
+		if i%4 == 0 {
+			for k := 0; k < 3000; k++ {
+				body := []byte("fill")
+				_ = auth.Verify(signedReq("k1", "/r", c08T0.Unix(), fmt.Sprintf("fill-%d-%d", i, k), body), "/r", body)
+			}
+			c.Count("concurrent_rounds_with_populated_cache", 1)
+			for b := 0; b < 4; b++ {
+				wg.Add(1)
+				go func(b int) {
+					defer wg.Done()
+					<-start
+					for k := 0; k < 12; k++ {
+						body := []byte("bg")
+						_ = auth.Verify(signedReq("k1", "/r", c08T0.Unix(), fmt.Sprintf("bg-%d-%d-%d", i, b, k), body), "/r", body)
+					}
+				}(b)
+			}
+		}
 		for g := 0; g < 16; g++ {
 			wg.Add(1)
 			go func(g int) {
